@@ -33,7 +33,10 @@ const Property = "C04"
 
 // Key is a cache key as data. T is the dynamic Go type the key is given to the
 // cache with ("int", "int64", "uint32", "string"): int 1, int64 1, uint32 1 and
-// "1" are four different keys of an interface{}-keyed cache.
+// "1" are four different keys of an interface{}-keyed cache. "nil" is the nil
+// interface, a legal key of the map the single caches index with (the wide
+// variants route keys through the remap index, which has no case for it: nil
+// keys are generated for the single caches only).
 type Key struct {
 	T string `json:"t"`
 	I int64  `json:"i,omitempty"`
@@ -41,9 +44,12 @@ type Key struct {
 }
 
 func (k Key) norm() Key {
-	if k.T == "string" {
+	switch k.T {
+	case "string":
 		k.I = 0
-	} else {
+	case "nil":
+		k.I, k.S = 0, ""
+	default:
 		k.S = ""
 	}
 	return k
@@ -62,12 +68,16 @@ func (k Key) iface() (any, bool) {
 		return uint32(k.I), true
 	case "string":
 		return k.S, true
+	case "nil":
+		return nil, true
 	}
 	return nil, false
 }
 
 func keyOf(x any) Key {
 	switch v := x.(type) {
+	case nil:
+		return Key{T: "nil"}
 	case int:
 		return Key{T: "int", I: int64(v)}
 	case int64:
@@ -81,8 +91,11 @@ func keyOf(x any) Key {
 }
 
 func (k Key) String() string {
-	if k.T == "string" {
+	switch k.T {
+	case "string":
 		return fmt.Sprintf("%q", k.S)
+	case "nil":
+		return "nil"
 	}
 	return fmt.Sprintf("%s(%d)", k.T, k.I)
 }
@@ -92,9 +105,24 @@ func (k Key) String() string {
 type sv struct {
 	id, sz int
 	isNil  bool // tiny caches only: store the untyped nil instead (a legal interface{} value there)
+	slice  bool // store a value of a NOT comparable dynamic type instead (svSlice / []byte)
 }
 
 func (v sv) Size() int { return v.sz }
+
+// svSlice is a cache.Value whose dynamic type is not comparable: {identity, size}. Nothing in cache.Value asks
+// for comparable values, so a cache must never apply == to the values it is given.
+type svSlice []int
+
+func (v svSlice) Size() int { return v[1] }
+
+// cacheVal is what a cache.LRUCache is given for v.
+func cacheVal(v sv) cache.Value {
+	if v.slice {
+		return svSlice{v.id, v.sz}
+	}
+	return v
+}
 
 // nilID is the identity of a nil value (tiny caches take any interface{}).
 const nilID = -2
@@ -103,8 +131,17 @@ func valID(v any) int {
 	if v == nil {
 		return nilID
 	}
-	if s, ok := v.(sv); ok {
+	switch s := v.(type) {
+	case sv:
 		return s.id
+	case svSlice:
+		if len(s) == 2 {
+			return s[0]
+		}
+	case []byte:
+		if n, err := strconv.Atoi(string(s)); err == nil {
+			return n
+		}
 	}
 	return -1 // a value nobody stored
 }
@@ -114,7 +151,37 @@ func tinyVal(v sv) any {
 	if v.isNil {
 		return nil
 	}
+	if v.slice {
+		return []byte(strconv.Itoa(v.id)) // not comparable either
+	}
 	return v
+}
+
+// mkVal is the value a storing call stores.
+func mkVal(op Op, id int) sv { return sv{id: id, sz: op.Size, isNil: op.Nil, slice: op.Slice} }
+
+func storing(kind string) bool { return kind == kSet || kind == kSia || kind == kSagr }
+
+// lastVals remembers, per key, the value the last storing call of a sequential history was given, so that a call
+// marked Again can hand the cache the identical value (same identity, size and dynamic type) once more.
+type lastVals map[Key]lastVal
+
+type lastVal struct {
+	id, size     int
+	isNil, slice bool
+}
+
+func (l lastVals) resolve(op Op, id int) (Op, int) {
+	if !storing(op.K) {
+		return op, id
+	}
+	if lv, ok := l[op.Key]; ok && op.Again {
+		op.Size, op.Nil, op.Slice, id = lv.size, lv.isNil, lv.slice, lv.id
+	} else {
+		op.Again = false
+	}
+	l[op.Key] = lastVal{id, op.Size, op.Nil, op.Slice}
+	return op, id
 }
 
 const (
@@ -132,6 +199,7 @@ const (
 	kKeys  = "keys"
 	kItems = "items"
 	kStats = "stats"
+	kSJSON = "statsjson" // the same observation as Stats, through StatsJSON
 	kLen   = "length"
 	kSize  = "size"
 	kCap   = "capacity"
@@ -140,7 +208,7 @@ const (
 
 var apiName = map[string]string{
 	kSet: "Set", kSia: "SetIfAbsent", kSagr: "SetAndGetRemoved", kGet: "Get", kPeek: "Peek", kExist: "Exist",
-	kDel: "Delete", kClear: "Clear", kSetCap: "SetCapacity", kKeys: "Keys", kItems: "Items", kStats: "Stats",
+	kDel: "Delete", kClear: "Clear", kSetCap: "SetCapacity", kKeys: "Keys", kItems: "Items", kStats: "Stats", kSJSON: "StatsJSON",
 	kLen: "Length", kSize: "Size", kCap: "Capacity", kEvs: "Evictions",
 }
 
@@ -170,6 +238,10 @@ type Op struct {
 	Cap  int64  `json:"cap,omitempty"`  // SetCapacity argument
 	Y    bool   `json:"y,omitempty"`    // concurrent parts: yield the processor before the call
 	Nil  bool   `json:"nil,omitempty"`  // storing call on a tiny cache: the value is nil
+	// storing call: the value has a dynamic type that is not comparable (a slice with a Size method; []byte for tiny)
+	Slice bool `json:"slice,omitempty"`
+	// storing call of a sequential history: store the value the last storing call on this key was given, once more
+	Again bool `json:"again,omitempty"`
 }
 
 // MarshalJSON leaves out the key of calls that take none (written by hand: it
@@ -199,6 +271,12 @@ func (o Op) MarshalJSON() ([]byte, error) {
 	if o.Nil {
 		b = append(b, `,"nil":true`...)
 	}
+	if o.Slice {
+		b = append(b, `,"slice":true`...)
+	}
+	if o.Again {
+		b = append(b, `,"again":true`...)
+	}
 	return append(b, '}'), nil
 }
 
@@ -217,7 +295,14 @@ func appendJSONString(b []byte, s string) []byte {
 func (o Op) String() string {
 	switch o.K {
 	case kSet, kSia, kSagr:
-		return fmt.Sprintf("%s(%v, size %d)", apiName[o.K], o.Key, o.Size)
+		how := ""
+		if o.Slice {
+			how += ", slice-typed value"
+		}
+		if o.Again {
+			how += ", the value stored last under this key again"
+		}
+		return fmt.Sprintf("%s(%v, size %d%s)", apiName[o.K], o.Key, o.Size, how)
 	case kGet, kPeek, kExist, kDel:
 		return fmt.Sprintf("%s(%v)", apiName[o.K], o.Key)
 	case kSetCap:
@@ -263,6 +348,7 @@ type Out struct {
 	Keys    []Key    `json:"keys,omitempty"`
 	Items   []KV     `json:"items,omitempty"`
 	N       [4]int64 `json:"n,omitempty"` // Stats: length,size,capacity,evictions; single numbers in N[0]
+	Bad     string   `json:"bad,omitempty"` // StatsJSON: the text, when it is not a JSON object of exactly the four numbers
 }
 
 func (o Out) show(kind string) string {
@@ -280,7 +366,10 @@ func (o Out) show(kind string) string {
 		return fmt.Sprint(o.Keys)
 	case kItems:
 		return fmt.Sprint(o.Items)
-	case kStats:
+	case kStats, kSJSON:
+		if o.Bad != "" {
+			return fmt.Sprintf("unparseable %q", o.Bad)
+		}
 		return fmt.Sprintf("(len %d, size %d, cap %d, evictions %d)", o.N[0], o.N[1], o.N[2], o.N[3])
 	case kLen, kSize, kCap, kEvs:
 		return fmt.Sprint(o.N[0])
@@ -341,6 +430,8 @@ func outEq(kind string, a, b Out) bool {
 		return itemsEq(a.Items, b.Items)
 	case kStats:
 		return a.N == b.N
+	case kSJSON:
+		return a.N == b.N && a.Bad == "" && b.Bad == ""
 	case kLen, kSize, kCap, kEvs:
 		return a.N[0] == b.N[0]
 	}
@@ -518,7 +609,7 @@ func (m *ideal) apply(op Op, id int, alt bool) Out {
 		for i, e := range m.ents {
 			o.Items[i] = KV{e.K, e.V}
 		}
-	case kStats:
+	case kStats, kSJSON:
 		o.N = [4]int64{int64(len(m.ents)), m.total(), m.capa, m.ev}
 	case kLen:
 		o.N[0] = int64(len(m.ents))
@@ -569,7 +660,7 @@ type cacheFacade struct{ f cache.LRUFacade }
 func (a cacheFacade) Get(k any) (int, bool)  { v, ok := a.f.Get(k); return hitID(v, ok), ok }
 func (a cacheFacade) Peek(k any) (int, bool) { v, ok := a.f.Peek(k); return hitID(v, ok), ok }
 func (a cacheFacade) Exist(k any) bool       { return a.f.Exist(k) }
-func (a cacheFacade) Set(k any, v sv)        { a.f.Set(k, v) }
+func (a cacheFacade) Set(k any, v sv)        { a.f.Set(k, cacheVal(v)) }
 func (a cacheFacade) Delete(k any) bool      { return a.f.Delete(k) }
 
 func hitID(v any, ok bool) int {
@@ -621,10 +712,10 @@ func (k *keptLists) changed() string {
 	return ""
 }
 
-func (a cacheFull) SetIfAbsent(k any, v sv) { a.c.SetIfAbsent(k, v) }
+func (a cacheFull) SetIfAbsent(k any, v sv) { a.c.SetIfAbsent(k, cacheVal(v)) }
 func (a cacheFull) SetAndGetRemoved(k any, v sv) []int {
 	var ids []int
-	raw := a.c.SetAndGetRemoved(k, v)
+	raw := a.c.SetAndGetRemoved(k, cacheVal(v))
 	for _, r := range raw {
 		ids = append(ids, valID(r))
 	}
@@ -780,7 +871,7 @@ func doReal(t target, op Op, id int) (o Out, supported bool) {
 	}
 	switch op.K {
 	case kSet:
-		t.Set(k, sv{id, op.Size, op.Nil})
+		t.Set(k, mkVal(op, id))
 		return o, true
 	case kGet:
 		o.Val, o.OK = t.Get(k)
@@ -801,9 +892,9 @@ func doReal(t target, op Op, id int) (o Out, supported bool) {
 	}
 	switch op.K {
 	case kSia:
-		f.SetIfAbsent(k, sv{id, op.Size, op.Nil})
+		f.SetIfAbsent(k, mkVal(op, id))
 	case kSagr:
-		o.Removed = f.SetAndGetRemoved(k, sv{id, op.Size, op.Nil})
+		o.Removed = f.SetAndGetRemoved(k, mkVal(op, id))
 	case kClear:
 		f.Clear()
 	case kSetCap:
@@ -814,6 +905,8 @@ func doReal(t target, op Op, id int) (o Out, supported bool) {
 		o.Items = f.Items()
 	case kStats:
 		o.N = f.Stats()
+	case kSJSON:
+		o.N, o.Bad = parseStatsJSON(f.StatsJSON())
 	case kLen:
 		o.N[0] = f.Length()
 	case kSize:
@@ -826,6 +919,23 @@ func doReal(t target, op Op, id int) (o Out, supported bool) {
 		return o, false
 	}
 	return o, true
+}
+
+// parseStatsJSON reads the four numbers of StatsJSON; bad is the text itself when it is not a JSON object of
+// exactly Length, Size, Capacity and Evictions.
+func parseStatsJSON(s string) (n [4]int64, bad string) {
+	var js map[string]int64
+	if err := json.Unmarshal([]byte(s), &js); err != nil || len(js) != 4 {
+		return n, "StatsJSON() = " + s
+	}
+	for i, name := range [4]string{"Length", "Size", "Capacity", "Evictions"} {
+		v, ok := js[name]
+		if !ok {
+			return n, "StatsJSON() = " + s
+		}
+		n[i] = v
+	}
+	return n, ""
 }
 
 // ---------------------------------------------------------------------------
@@ -861,6 +971,61 @@ func (m *ideal) snapshot() *snapshot {
 	return s
 }
 
+// disagrees returns the first observer (in the order of observers) whose result differs from what the model would
+// return, "" if none does. It is outEq(k, obs.get(k), m.snapshot().get(k)) for every observer k without building the
+// model's lists (this runs after every call of every sequential history).
+func (m *ideal) disagrees(obs *snapshot) string {
+	n, tot := int64(len(m.ents)), m.total()
+	for i, k := range observers {
+		o := &obs[i]
+		switch k {
+		case kKeys:
+			if len(o.Keys) != len(m.ents) {
+				return k
+			}
+			for j := range m.ents {
+				if o.Keys[j] != m.ents[j].K {
+					return k
+				}
+			}
+		case kItems:
+			if len(o.Items) != len(m.ents) {
+				return k
+			}
+			for j := range m.ents {
+				if o.Items[j].K != m.ents[j].K || o.Items[j].V != m.ents[j].V {
+					return k
+				}
+			}
+		case kStats:
+			if o.N != [4]int64{n, tot, m.capa, m.ev} {
+				return k
+			}
+		case kLen:
+			if o.N[0] != n {
+				return k
+			}
+		case kSize:
+			if o.N[0] != tot {
+				return k
+			}
+		case kCap:
+			if o.N[0] != m.capa {
+				return k
+			}
+		case kEvs:
+			if o.N[0] != m.ev {
+				return k
+			}
+		default:
+			if !outEq(k, *o, m.apply(Op{K: k}, 0, false)) {
+				return k
+			}
+		}
+	}
+	return ""
+}
+
 // stepFull performs one call on a single cache and on the model and compares
 // the result and every observer. It returns the model after the call (nil after
 // a failure).
@@ -881,14 +1046,8 @@ func stepFull(res *vkit.Result, impl string, where func() string, t fullTarget, 
 		a, ms := "", ""
 		if !outEq(op.K, got, exp) {
 			a, ms = "result", fmt.Sprintf("returned %s, ideal LRU: %s", got.show(op.K), exp.show(op.K))
-		} else {
-			want := cand.snapshot()
-			for _, k := range observers {
-				if !outEq(k, obs.get(k), want.get(k)) {
-					a, ms = apiName[k], fmt.Sprintf("%s() = %s, ideal LRU: %s", apiName[k], obs.get(k).show(k), want.get(k).show(k))
-					break
-				}
-			}
+		} else if k := cand.disagrees(obs); k != "" {
+			a, ms = apiName[k], fmt.Sprintf("%s() = %s, ideal LRU: %s", apiName[k], obs.get(k).show(k), cand.snapshot().get(k).show(k))
 		}
 		if a == "" {
 			if info.siaPresent {
@@ -1002,17 +1161,42 @@ func ExecSeq(c SeqCase) *vkit.Result {
 			return res.Failf(c.Impl+"/new/"+apiName[k], "new cache of capacity %d: %s() = %s, want %s", c.Cap, apiName[k], got.get(k).show(k), want.get(k).show(k))
 		}
 	}
+	last := lastVals{}
+	most := 0
 	for i, op := range normOps(c.Ops) {
 		if p := opProblem(op); p != "" {
 			res.Skip("op:" + p)
 			continue
 		}
-		if op.Size == 0 && c.Impl == implCache && (op.K == kSet || op.K == kSia || op.K == kSagr) {
-			res.Class("zero-size item")
+		op, id := last.resolve(op, i+1)
+		if storing(op.K) {
+			if op.Size == 0 && c.Impl == implCache {
+				res.Class("zero-size item")
+			}
+			if op.Slice && !(op.Nil && c.Impl == implTiny) {
+				res.Class("value of a non-comparable type")
+			}
+			if op.Again {
+				res.Class("identical value stored again")
+			}
+			if op.Key.T == "nil" {
+				res.Class("nil key")
+			}
 		}
-		if m = stepFull(res, c.Impl, func() string { return fmt.Sprintf("op #%d", i) }, t, m, op, i+1); m == nil {
+		if m = stepFull(res, c.Impl, func() string { return fmt.Sprintf("op #%d", i) }, t, m, op, id); m == nil {
 			return res
 		}
+		if len(m.ents) > most {
+			most = len(m.ents)
+		}
+		if m.info.evicted > 32 {
+			res.Class("more than 32 entries evicted by one call")
+		} else if m.info.evicted > 8 {
+			res.Class("more than 8 entries evicted by one call")
+		}
+	}
+	if most >= 50 {
+		res.Class("50 or more live entries")
 	}
 	// removed-lists handed out earlier still hold what they held
 	var kl *keptLists
@@ -1029,12 +1213,11 @@ func ExecSeq(c SeqCase) *vkit.Result {
 		res.Class("removed-lists retained and re-checked")
 	}
 	// StatsJSON is the same four numbers
-	var js map[string]int64
-	if err := json.Unmarshal([]byte(t.StatsJSON()), &js); err != nil {
-		return res.Failf(c.Impl+"/StatsJSON", "StatsJSON() = %q is not a JSON object of numbers: %v", t.StatsJSON(), err)
+	js, bad := parseStatsJSON(t.StatsJSON())
+	if bad != "" {
+		return res.Failf(c.Impl+"/StatsJSON", "%s is not a JSON object of the four numbers Length, Size, Capacity, Evictions", bad)
 	}
-	st := m.apply(Op{K: kStats}, 0, false).N
-	if js["Length"] != st[0] || js["Size"] != st[1] || js["Capacity"] != st[2] || js["Evictions"] != st[3] || len(js) != 4 {
+	if st := m.apply(Op{K: kStats}, 0, false).N; js != st {
 		return res.Failf(c.Impl+"/StatsJSON", "StatsJSON() = %s, ideal LRU: %s", t.StatsJSON(), Out{N: st}.show(kStats))
 	}
 	return res
@@ -1049,6 +1232,7 @@ var universe = []Key{
 	{T: "int", I: 0}, {T: "int", I: 1}, {T: "int", I: 2}, {T: "int", I: 3}, {T: "int", I: 4}, {T: "int", I: 5},
 	{T: "int", I: -1}, {T: "int64", I: 1}, {T: "int64", I: 2}, {T: "uint32", I: 1},
 	{T: "string", S: "a"}, {T: "string", S: "b"}, {T: "string", S: "1"}, {T: "string", S: ""},
+	{T: "nil"},
 }
 
 func genPool(t *rapid.T, from []Key, lo, hi int) []Key {
@@ -1068,9 +1252,11 @@ func genPool(t *rapid.T, from []Key, lo, hi int) []Key {
 // capacity, sometimes anything (oversize items flush the cache). Profile 1
 // keeps items small (0..2, rarely anything) so that many entries live long and
 // deep recency orders build up; profile 2 is the unit-size cache (every item 1,
-// rarely 0 or 2).
+// rarely 0 or 2); profile 3 is exactly 1 always (then Size == Length in every snapshot of a cache.LRUCache too).
 func genSize(t *rapid.T, profile int, capa int64) int {
 	switch profile {
+	case 3:
+		return 1
 	case 1:
 		if rapid.IntRange(0, 19).Draw(t, "sizekind") == 0 {
 			return rapid.IntRange(0, 15).Draw(t, "size")
@@ -1165,6 +1351,15 @@ func maxOps() int {
 
 func genSeq(impl string) func(t *rapid.T) SeqCase {
 	return func(t *rapid.T) SeqCase {
+		// rapid's integer draws favour the ends of a range (0 comes up in one draw of ten here); values in the
+		// middle have about 0.22 % each: 3 of them for the quick tier (~0.7 % of the cases), 14 for thorough (~3 %)
+		bigN := 3
+		if vkit.Tier() == "thorough" {
+			bigN = 14
+		}
+		if v := rapid.IntRange(0, 199).Draw(t, "big"); v >= 100 && v < 100+bigN {
+			return genBigSeq(t, impl)
+		}
 		c := SeqCase{Impl: impl, Facade: rapid.IntRange(0, 7).Draw(t, "facade") == 0}
 		if impl == implTiny {
 			// entries count 1: keep the capacity below the number of keys most of the time
@@ -1177,11 +1372,68 @@ func genSeq(impl string) func(t *rapid.T) SeqCase {
 		if impl == implTiny {
 			sprinkleNil(t, c.Ops)
 		}
+		sprinkleVals(t, c.Ops)
 		return c
 	}
 }
 
-const seqRule = "rapid: capacity 0..12, 1-8 keys out of 14 (ints and the same numbers/digits as int64, uint32, string), up to 50 calls (120 thorough) of Set, SetAndGetRemoved, SetIfAbsent, Get, Peek, Exist, Delete, Clear, SetCapacity(0..12); item sizes 0..15 from one of three per-case profiles (mixture small / around the capacity / any; small 0..2; unit). After every call the result and Keys, Items, Stats, Length, Size, Capacity, Evictions must equal an independently written ideal LRU (most-recent-first slice), and Size <= Capacity from the cache's own numbers. Non-trivial: at least one eviction happened; distinct = distinct case JSON"
+var bigFillKinds = weighted(kSet, 3, kSia, 1, kSagr, 1)
+
+// genBigSeq draws one of the rare big histories: capacity 50..300, 50..120 (one in four: 120..320) int keys stored one
+// after the other (50-300 live entries), then 3-10 steps out of: SetCapacity to 0 / a few / half / more (one call has to evict dozens or
+// hundreds of entries), an item larger than the whole capacity, a burst of further stores after raising the capacity
+// again, some Gets (recency), Deletes, Clear.
+func genBigSeq(t *rapid.T, impl string) SeqCase {
+	c := SeqCase{Impl: impl, Cap: int64(rapid.IntRange(50, 300).Draw(t, "bigcap"))}
+	nkeys := rapid.IntRange(50, 120).Draw(t, "bigkeys")
+	if rapid.IntRange(0, 3).Draw(t, "bigger") == 0 { // the cost of a history grows with the square of the population
+		nkeys = rapid.IntRange(120, 320).Draw(t, "bigkeys")
+	}
+	profile := rapid.SampledFrom([]int{3, 3, 2, 1}).Draw(t, "bigsizes")
+	key := func(i int) Key { return Key{T: "int", I: int64(i)} }
+	anyKey := rapid.Custom(func(t *rapid.T) Key { return key(rapid.IntRange(0, nkeys+3).Draw(t, "key")) })
+	store := func(k Key, size int) Op {
+		return Op{K: rapid.SampledFrom(bigFillKinds).Draw(t, "op"), Key: k, Size: size}
+	}
+	for i := 0; i < nkeys; i++ {
+		c.Ops = append(c.Ops, store(key(i), genSize(t, profile, c.Cap)))
+	}
+	capNow := c.Cap
+	for n := rapid.IntRange(3, 10).Draw(t, "bigsteps"); n > 0 && len(c.Ops) < 900; n-- {
+		switch rapid.SampledFrom([]string{"shrink", "shrink", "shrink", "shrink", "oversize", "oversize", "burst", "burst", "burst", "gets", "gets", "deletes", "clear"}).Draw(t, "bigstep") {
+		case "shrink":
+			to := rapid.SampledFrom([]int64{0, 0, 1, 2, 5, 10, capNow / 2, capNow - 1, capNow - 9, capNow - 33}).Draw(t, "newcap")
+			if to < 0 {
+				to = 0
+			}
+			capNow = to
+			c.Ops = append(c.Ops, Op{K: kSetCap, Cap: to})
+		case "oversize":
+			c.Ops = append(c.Ops, store(anyKey.Draw(t, "key"), int(capNow)+rapid.IntRange(0, 2).Draw(t, "over")))
+		case "burst":
+			capNow = int64(rapid.IntRange(40, 300).Draw(t, "newcap"))
+			c.Ops = append(c.Ops, Op{K: kSetCap, Cap: capNow})
+			m := rapid.IntRange(20, nkeys).Draw(t, "burst")
+			from := rapid.IntRange(0, nkeys).Draw(t, "from")
+			for i := 0; i < m; i++ {
+				c.Ops = append(c.Ops, store(key((from+i)%(nkeys+4)), genSize(t, profile, capNow)))
+			}
+		case "gets":
+			for i := rapid.IntRange(1, 12).Draw(t, "gets"); i > 0; i-- {
+				c.Ops = append(c.Ops, Op{K: kGet, Key: anyKey.Draw(t, "key")})
+			}
+		case "deletes":
+			for i := rapid.IntRange(1, 6).Draw(t, "deletes"); i > 0; i-- {
+				c.Ops = append(c.Ops, Op{K: kDel, Key: anyKey.Draw(t, "key")})
+			}
+		case "clear":
+			c.Ops = append(c.Ops, Op{K: kClear})
+		}
+	}
+	return c
+}
+
+const seqRule = "rapid: capacity 0..12, 1-8 keys out of 15 (ints and the same numbers/digits as int64, uint32, string, and the nil interface), up to 50 calls (120 thorough) of Set, SetAndGetRemoved, SetIfAbsent, Get, Peek, Exist, Delete, Clear, SetCapacity(0..12); item sizes 0..15 from one of three per-case profiles (mixture small / around the capacity / any; small 0..2; unit). After every call the result and Keys, Items, Stats, Length, Size, Capacity, Evictions must equal an independently written ideal LRU (most-recent-first slice), and Size <= Capacity from the cache's own numbers. In a quarter of the cases about half of the stored values have a dynamic type that is not comparable (a slice with a Size method; []byte for tiny) and some storing calls store the identical value once more. About 7 cases in 1000 (3 in 100 thorough) are big histories: capacity 50..300, 50-120 (one in four: up to 320) int keys stored in turn, then SetCapacity shrinks to 0/few/half, items larger than the capacity, further bursts, Gets, Deletes, Clear (up to ~900 calls; single calls evict dozens to hundreds of entries). Non-trivial: at least one eviction happened; distinct = distinct case JSON"
 
 var PartCache = &vkit.Part[SeqCase]{
 	Property: Property, Name: "seq-cache",
@@ -1295,7 +1547,7 @@ func ExecWide(c WideCase) *vkit.Result {
 	}
 	t, idx := newWide(c.Impl, c.Cap, c.Shards, c.XHash)
 	w := newWideIdeal(c.Impl == implWTiny, c.Cap, c.Shards, idx)
-	ops := normOps(c.Ops)
+	ops := wideOps(res, normOps(c.Ops))
 	pool := distinctKeys(ops)
 	route := "modulo"
 	if c.XHash {
@@ -1319,6 +1571,7 @@ func ExecWide(c WideCase) *vkit.Result {
 	if len(perShard) >= 2 {
 		res.Class("keys in different shards")
 	}
+	last := lastVals{}
 	for i, op := range ops {
 		if p := opProblem(op); p != "" {
 			res.Skip("op:" + p)
@@ -1328,11 +1581,32 @@ func ExecWide(c WideCase) *vkit.Result {
 			res.Skip("op:not-in-facade")
 			continue
 		}
-		if !stepWide(res, c.Impl, func() string { return fmt.Sprintf("op #%d", i) }, t, w, pool, op, i+1) {
+		op, id := last.resolve(op, i+1)
+		if storing(op.K) && op.Slice && !(op.Nil && c.Impl == implWTiny) {
+			res.Class("value of a non-comparable type")
+		}
+		if op.Again {
+			res.Class("identical value stored again")
+		}
+		if !stepWide(res, c.Impl, func() string { return fmt.Sprintf("op #%d", i) }, t, w, pool, op, id) {
 			return res
 		}
 	}
 	return res
+}
+
+// wideOps drops calls on the nil key: the wide variants route every key through the remap index, which knows the
+// integer types and strings only.
+func wideOps(res *vkit.Result, ops []Op) []Op {
+	out := ops[:0:0]
+	for _, o := range ops {
+		if needsKey(o.K) && o.Key.T == "nil" {
+			res.Skip("op:nil-key-on-wide")
+			continue
+		}
+		out = append(out, o)
+	}
+	return out
 }
 
 // wideUniverse is the key domain of the wide parts; keys are grouped by the
@@ -1445,6 +1719,7 @@ func GenWide(t *rapid.T) WideCase {
 	if c.Impl == implWTiny {
 		sprinkleNil(t, c.Ops)
 	}
+	sprinkleVals(t, c.Ops)
 	return c
 }
 
@@ -1458,6 +1733,21 @@ func sprinkleNil(t *rapid.T, ops []Op) {
 		switch ops[i].K {
 		case kSet, kSia, kSagr:
 			ops[i].Nil = rapid.IntRange(0, 3).Draw(t, "nil") == 0
+		}
+	}
+}
+
+// sprinkleVals gives, in one case out of four, about half of the storing calls a value of a non-comparable dynamic
+// type, and lets one storing call in four store the value the key was given last once more.
+func sprinkleVals(t *rapid.T, ops []Op) {
+	if rapid.IntRange(0, 3).Draw(t, "valuekinds") != 0 {
+		return
+	}
+	for i := range ops {
+		if storing(ops[i].K) {
+			x := rapid.IntRange(0, 7).Draw(t, "valuekind")
+			ops[i].Slice = x < 4
+			ops[i].Again = x == 0 || x == 7
 		}
 	}
 }
